@@ -28,6 +28,16 @@ func RenameOutput(callable syntax.Callable,
 					OldParam: oldParam,
 					NewParam: newParam,
 				})
+				if pipe, ok := c.(*syntax.Pipeline); ok && pipe.Ret != nil {
+					if b := wildcardBindingFor(pipe.Ret.Bindings, oldParam); b != nil {
+						// The wildcard no longer matches the renamed output.
+						edits = append(edits, materializeBinding{
+							Pipeline: pipe,
+							Id:       newParam,
+							Exp:      b.Exp,
+						})
+					}
+				}
 			} else if pipe, ok := c.(*syntax.Pipeline); ok {
 				edits = renameOutputInCalls(callable,
 					oldParam, newParam, pipe, edits)
@@ -96,6 +106,15 @@ func updateRefsOutNamesFromBinding(edits editSet, binding *syntax.BindStm,
 	// Must edit the original AST here or else other edits will be operating on
 	// the incorrect expression.
 	binding.Exp = exp
+	if !isMods && fromWholeWildcard(pipe, call, binding) {
+		// The wildcard no longer matches the renamed output.
+		return append(edits, materializeBinding{
+			Pipeline: pipe,
+			Call:     call,
+			Id:       binding.Id,
+			Exp:      exp,
+		})
+	}
 	return append(edits, &editBinding{
 		Pipeline: pipe,
 		Call:     call,
